@@ -33,6 +33,7 @@ CHECKS = {
     "C13": ("p_rewrites", "c13"),
     "C15": ("p_history", "c15"),
     "C19": ("p_capacity", "c19"),
+    "C16": ("p_bounds", "c16"),
 }
 
 
